@@ -282,14 +282,14 @@ def gen_optsets(rng, prog, n):
 def verdict(ctx, cases, res, witness_idx=None):
     if res is None:
         return
-    viol = [i for i in res["e_violations"] if i != witness_idx]
+    viol = list(res["e_violations"])      # the former defect witness is an ordinary case now (defect fixed)
     for i in viol[:3]:
         c = cases[i]
         ctx.violation("C14 violated end-to-end: `uftrace record %s` on a %s program - traced names, code bytes, output "
                       "or page permissions are not what the property allows"
                       % (" ".join(c["obs"]["args"][4:-1]), c["variant"]),
                       {"mode": "e2e", "case": case_json(c), "source": c.get("source")}, True)
-    mism = [i for i in res["e_mismatch"] if i != witness_idx]
+    mism = list(res["e_mismatch"])
     if mism and not viol:
         c = cases[mism[0]]
         ctx.violation("model and the real `uftrace record -P/-U` disagree end-to-end (%d cases); the property checker "
@@ -354,18 +354,6 @@ def run(ctx, objdir, h):
         c = cases[wit]
         still = c["obs"]["died"]
         ctx.extra.setdefault("defect_witness_still_fails", {})[base.KNOWN_KEY + "/e2e"] = bool(still)
-        if wit in res["e_violations"]:
-            txt = ("`uftrace record -P .` kills a program whose executable segment ends %d bytes before a page "
-                   "boundary (pr_err in mcount_setup_trampoline: mmap MAP_FIXED_NOREPLACE -> EEXIST)"
-                   % ((-(c["text_addr"] + c["text_size"])) % 4096))
-            if ctx.kf.listed("C14", base.KNOWN_KEY) and base.KNOWN_KEY in ctx.known_printed and still:
-                pass                      # already printed for the in-process witness
-            elif ctx.kf.listed("C14", base.KNOWN_KEY):
-                ctx.known_finding(base.KNOWN_KEY, txt, still, {"mode": "e2e", "case": case_json(c), "source": c["source"]})
-            elif still:
-                ctx.log("DEFECT-CANDIDATE e2e witness (not listed in known-findings.txt): " + txt)
-            else:
-                ctx.log("e2e trampoline-page witness: program runs untraced (repaired variant)")
     verdict(ctx, cases, res, wit)
 
 
